@@ -370,7 +370,9 @@ pub fn classify(p: &Prog, arg: &Arg, j: &Judged, cx: &mut Cx) -> Option<&'static
             let r = judge(&src, cx);
             // the unfolded program runs fine — or, when the original got *stuck*, the unfolded one
             // is rejected (the access that got stuck only type-checked on the mis-resolved type)
-            if (r.kind.accepted() && !r.kind.fails()) || (r.kind == Kind::Rejected && matches!(j.kind, Kind::Stuck(_))) {
+            // the unfolded program runs fine, or is rejected: the original was accepted only on the
+            // mis-resolved type (N6 is broad: any use of a type taken out of a recursive alias)
+            if (r.kind.accepted() && !r.kind.fails()) || r.kind == Kind::Rejected {
                 return Some(SIG_REC_BACKREF);
             }
         }
@@ -840,6 +842,30 @@ fn main() {
                 ev.sample_sparse(ev.evaluations, 1500, || json!({"kind": "program", "family": p.family, "source": src, "outcome": j.kind.tag(), "type": j.result_type, "value": j.detail}));
                 if j.kind.fails() {
                     report_failure(&mut ev, &p, arg, &j, &mut cx, "generated");
+                } else if let (Some(decl), Some(v)) = (&p.declared_ret, &j.value) {
+                    // the declared-return guard: the value must inhabit the DECLARED type too
+                    let mut helper = p.clone();
+                    helper.defs.push(("chk__".into(), gen_::t(&format!("#{decl} {{ $ }}"))));
+                    helper.main = gen_::t("&chk__");
+                    let hsrc = helper.render(&arg.src, &Repair::default());
+                    if let Ok(unit) = front(&hsrc, &cx) {
+                        if let Some(Type::Callable { parameter, .. }) = unit.program.get_types().get(unit.compiled_result_type).cloned() {
+                            let mut it = Interner::default();
+                            let table = table_sx(unit.program.get_types(), unit.program.get_tuples(), &mut it);
+                            if cx.model.ask(&table).starts_with("ok") {
+                                let a = cx.model.ask(&format!("(inh {parameter} {})", ev_sx(v, &mut it)));
+                                ev.hit(&format!("declared-return:{a}"));
+                                if a == "false" {
+                                    ev.violation(
+                                        "declared-return-type-not-honoured",
+                                        &format!("function with declared return type `{decl}` is accepted and returns `{}`, which is outside the declared type; source: {}", j.detail, src.replace('\n', " ")),
+                                        json!({"source": src, "argument": arg.src, "declared": decl, "value": j.detail, "inferred_type": j.result_type}),
+                                        true,
+                                    );
+                                }
+                            }
+                        }
+                    }
                 }
             }
         }
